@@ -80,6 +80,19 @@ FIXED = {
  "a directory is linked to its own record when a sibling file": [
    ("C07", "a file and a sibling directory whose names differ only in case ('name' next to 'NAME/', both portable): in the primary hierarchy the directory's children were unreachable and the file record pointed at the directory extent (noticed by a sub-agent writing property-preserving generator changes; my trees used case-insensitively unique names; shapes file-dir-case / dir-file-case added first, C07 and C08 then fired)", "tree-mismatch shape:file-dir-case / dir-file-case / file-dir-case-ps3"),
    ("C08", "same trees: directory record with extent length 0, path table pointing at a directory without '.'/'..', file extents overlapping", "V05/V06/V07/V08/V09 shape:file-dir-case")],
+ "open-dir does not keep a non-directory": [
+   ("C03", "OPENDIR on a generated-image path below the first level (/***DVD***/dir/sub) answers -1 but installed the VirtualISO as open directory; a following READ_DIR_ENTRY(_V2) was never answered (endless loop in the handler). Found by bug-hunting sub-agents; symbols 'OPENDIR ***DVD***/dir(/sub)' and scripted histories added to C03 first", "no-response RDE / RDE2"),
+   ("C13", "same history: the goroutine keeps spinning after the client has gone, its handles and client slot are never released", "leak virtual-as-directory")],
+ "a write-file request whose payload is cut off is not answered": [
+   ("C03", "WRITE announcing n bytes, cut inside the payload and half-closed, was answered with a 4-byte result (io.Copy takes EOF as success); the check had explicitly tolerated this answer, which the statement does not (the payload is part of the request)", "stray-bytes truncated-request WRITE 5 cut at byte 16..20/21")],
+ "delete-file removes only files, rmdir only directories": [
+   ("C05", "RMDIR on a regular file deleted it, DELETE on an empty directory removed it (both answer 0), either of them on an empty served root removed the root itself (Fs.Remove removes whatever the name points to); the model had admitted removal of the other kind", "remove-truth RMDIR-wrong-kind / DELETE-wrong-kind; remove-root empty-root")],
+ "region borders at or beyond sector 2^31 no longer wrap": [
+   ("C10", "valid region tables whose later plain regions start at or beyond sector 2^31 (far behind the data): int32 conversion made the encrypted region before them end at a negative sector, its sectors were served still encrypted", "wrong-bytes read/readat shape far-border")],
+ "a key file that cannot exist is a missing key file": [
+   ("C11", "image without applicable key refused instead of served: REDKEY (or REDKEY/sub) is a regular file (ENOTDIR), 255-byte image name (ENAMETOOLONG for its .dkey), a directory named like the key file (EISDIR; with a valid REDKEY key behind it)", "wrong-transformation key=redkey-is-file / redkey-sub-is-file / name-255-bytes / adjacent-dkey-is-dir+redkey / redkey-dkey-is-dir")],
+ "PS3ISO directory and .iso extension are matched by ASCII case only": [
+   ("C11", "directory 'PS3\u0130SO' or extension '.\u0130SO' (U+0130 lower-cases to ASCII i) counted as PS3ISO/.iso: the image was 'decrypted' with another image's key", "wrong-transformation key=dir-PS3\u0130SO+redkey / ext-.\u0130SO+adjacent")],
  "decrypt 3k3y also removes the watermark": [
    ("C20", "decrypt 3k3y output kept watermark+key with a cleared region table: placed under a served root it could not be opened (second transformation attempted)", "serve-back-failed 3k3y-from-PS3ISO / 3k3y-from-GAMES")],
 }
